@@ -192,6 +192,7 @@ func (h *H) decode(wire []byte, spare int, kind string) {
 	in, off, capa := a.window(wire, spare)
 	bk := cq.Bytes(a.bufs[0])
 	var p lorawan.PHYPayload
+	curWhat, curReplay = fmt.Sprintf("PHYPayload.UnmarshalBinary(%x)", wire), map[string]interface{}{"in": hexs(wire)}
 	st := guard(func() error { return p.UnmarshalBinary(in) })
 	fl := framefmt.DecodedFOptsLen(wire)
 	o1 := st
@@ -222,6 +223,7 @@ func (h *H) cmdDecode(up bool, wire []byte, spare int) {
 	in, off, capa := a.window(wire, spare)
 	bk := cq.Bytes(a.bufs[0])
 	var m lorawan.MACCommand
+	curWhat, curReplay = fmt.Sprintf("MACCommand.UnmarshalBinary(%v, %x)", up, wire), map[string]interface{}{"uplink": up, "in": hexs(wire)}
 	st := guard(func() error { return m.UnmarshalBinary(up, in) })
 	o1 := st
 	if st == "ok" {
@@ -254,6 +256,7 @@ func (h *H) encFRM(data []byte, spare int) {
 	up := h.r.Bool()
 	fcnt := h.r.U32()
 	var out []byte
+	curWhat, curReplay = fmt.Sprintf("EncryptFRMPayload(len=%d)", len(data)), map[string]interface{}{"data": hexs(data), "key": hexs(key[:])}
 	st := guard(func() (err error) { out, err = lorawan.EncryptFRMPayload(key, up, da, fcnt, in); return })
 	o := st
 	if st == "ok" {
@@ -277,6 +280,7 @@ func (h *H) encFOpts(data []byte, spare int) {
 	up, afd := h.r.Bool(), h.r.Bool()
 	fcnt := h.r.U32()
 	var out []byte
+	curWhat, curReplay = fmt.Sprintf("EncryptFOpts(len=%d)", len(data)), map[string]interface{}{"data": hexs(data), "key": hexs(key[:])}
 	st := guard(func() (err error) { out, err = lorawan.EncryptFOpts(key, afd, up, da, fcnt, in); return })
 	o := st
 	if st == "ok" {
@@ -298,6 +302,7 @@ func (h *H) decryptJA(ct []byte, spare int) {
 	p := lorawan.PHYPayload{MHDR: lorawan.MHDR{MType: lorawan.JoinAccept}, MACPayload: &lorawan.DataPayload{Bytes: in}}
 	copy(p.MIC[:], h.r.Bytes(4))
 	mic := cq.Bytes(p.MIC[:])
+	curWhat, curReplay = fmt.Sprintf("DecryptJoinAcceptPayload(%x)", ct), map[string]interface{}{"bytes": hexs(ct), "key": hexs(key[:])}
 	st := guard(func() error { return p.DecryptJoinAcceptPayload(key) })
 	o := st
 	if st == "ok" {
@@ -322,6 +327,7 @@ func (h *H) marshal(p lorawan.PHYPayload, kind string) {
 	bufs := a.dump()
 	snap0 := snapshot(p, 0)
 	var out []byte
+	curWhat, curReplay = "PHYPayload.MarshalBinary:"+snap0, map[string]interface{}{"frame": snap0}
 	st := guard(func() (err error) { out, err = p.MarshalBinary(); return })
 	o := st
 	if st == "ok" {
@@ -360,6 +366,7 @@ func (h *H) mic(p lorawan.PHYPayload, which int, set bool) {
 	ver := lorawan.MACVersion(h.r.Intn(2))
 	var eui lorawan.EUI64
 	copy(eui[:], h.r.Bytes(8))
+	curWhat, curReplay = fmt.Sprintf("MIC which=%d set=%v:%s", which, set, snap0), map[string]interface{}{"frame": snap0, "which": which, "set": set}
 	st := guard(func() (err error) {
 		switch which {
 		case 0:
@@ -414,6 +421,7 @@ func (h *H) frameCryptKey(p lorawan.PHYPayload, which int, k *lorawan.AES128Key)
 	if k != nil {
 		key = *k
 	}
+	curWhat, curReplay = fmt.Sprintf("frame-crypt which=%d:%s", which, snap0), map[string]interface{}{"frame": snap0, "which": which, "key": hexs(key[:])}
 	st := guard(func() error {
 		switch which {
 		case 0:
